@@ -287,6 +287,85 @@ static void case_angle(Rng& rng, uint64_t index)
 	(void) index;
 }
 
+// ------------------------------------------------------------------------------------------------------------------
+// Call histories: the same few angles and (bitwise identical) axes recur in 2D calls, 3D calls with and without an explicit axis, and spherical-coordinate
+// calls, in random order.  Every result is compared with a long double reference, so a result that depends on an earlier call (a cache keyed on too little)
+// is seen.  (The property does not mention histories because the functions are stateless; that is exactly what this generator observes.)
+static void case_history(Rng& rng, uint64_t index)
+{
+	int n_angles = rng.irange(1, 3), n_axes = rng.irange(1, 2), steps = rng.irange(6, 16);
+	std::vector<double> angles;
+	std::vector<std::vector<double>> axes;
+	for(int i = 0; i < n_angles; i++)
+		angles.push_back(gen_angle(rng));
+	for(int i = 0; i < n_axes; i++)
+	{
+		bool special;
+		axes.push_back(gen_axis(rng, rng.irange(0, 7), special));
+	}
+	if(rng.coin(0.3))
+		axes[0] = {0.0, 0.0, 1.0};	 // the default axis, bit for bit
+	std::vector<int> script;
+	for(int i = 0; i < steps; i++)
+		script.push_back(rng.irange(0, 4) * 100 + rng.irange(0, n_angles - 1) * 10 + rng.irange(0, n_axes - 1));
+	set_params(J().vec("angles", angles).vec("axis0", axes[0]).vec("axis1", axes.back()).i("steps", steps));
+	for(double a : angles)
+		hash_param(a);
+	hash_param(axes[0][0]), hash_param(axes[0][2]), hash_param((double) script[0]), hash_param((double) script.back());
+	mark_nontrivial();
+	for(int st = 0; st < steps; st++)
+	{
+		int kind = script[st] / 100;
+		double alpha = angles[(script[st] / 10) % 10];
+		const std::vector<double>& ax = axes[script[st] % 10];
+		auto sj = [&] { return J().i("step", st).i("kind", kind).d("alpha", alpha).vec("axis", ax); };
+		if(kind == 0)
+		{
+			Matrix R = Rotation_Matrix(alpha, 2);
+			double c = std::cos(alpha), s = std::sin(alpha);
+			bool ok	 = R.Rows() == 2 && R.Columns() == 2 && same_bits(R[0][0], c) && same_bits(R[1][1], c) && same_bits(R[1][0], s) && same_bits(R[0][1], -s);
+			require("history-2d-rotation-is-cos-sin-matrix", ok, [&] { return sj().vec("R_row_major", from_lib(R).a); });
+		}
+		else if(kind == 1 || kind == 2)
+		{
+			bool dflt = kind == 2;
+			Matrix Rm = dflt ? Rotation_Matrix(alpha, 3) : Rotation_Matrix(alpha, 3, Vector(ax));
+			if(!require("history-rotation-matrix-is-3x3", Rm.Rows() == 3 && Rm.Columns() == 3, sj))
+				continue;
+			V3 n = dflt ? V3 {0, 0, 1} : unit({(ld) ax[0], (ld) ax[1], (ld) ax[2]});
+			ld c = cosl((ld) alpha), s = sinl((ld) alpha), C = 1 - c;
+			ld ref[3][3] = {{c + n.x * n.x * C, n.x * n.y * C - n.z * s, n.x * n.z * C + n.y * s},
+							{n.x * n.y * C + n.z * s, c + n.y * n.y * C, n.y * n.z * C - n.x * s},
+							{n.x * n.z * C - n.y * s, n.y * n.z * C + n.x * s, c + n.z * n.z * C}};
+			ld dev = 0;
+			for(int i = 0; i < 3; i++)
+				for(int j = 0; j < 3; j++)
+					dev = std::max(dev, fabsl((ld) Rm[i][j] - ref[i][j]));
+			judge("history-3d-rotation-vs-rodrigues-reference", (double) dev, 16 * EPS, [&] { return sj().vec("R_row_major", from_lib(Rm).a); });
+		}
+		else
+		{
+			double r = rng.loguni(1e-3, 1e3), theta = rng.uni(0.01, M_PI - 0.01), phi = rng.uni(0, 2 * M_PI);
+			bool plain = kind == 4;
+			Vector v   = plain ? Spherical_Coordinates(r, theta, phi) : Spherical_Coordinates(r, theta, phi, Vector(ax));
+			if(!require("history-spherical-returns-3-vector", v.Size() == 3, sj))
+				continue;
+			V3 w = {(ld) v[0], (ld) v[1], (ld) v[2]};
+			V3 n = plain ? V3 {0, 0, 1} : unit({(ld) ax[0], (ld) ax[1], (ld) ax[2]});
+			judge("history-spherical-norm-is-r", (double) (fabsl(norm(w) - (ld) r) / (ld) r), 8 * EPS, [&] { return sj().vec("v", from_lib(v)); });
+			ld polar = atan2l(norm(cross(n, w)), dot(n, w));
+			judge("history-spherical-polar-angle-to-axis-is-theta", (double) fabsl(polar - (ld) theta), 1e-7, [&] { return sj().vec("v", from_lib(v)).d("theta", theta); });
+			if(plain)
+			{
+				double x = r * std::sin(theta) * std::cos(phi), y = r * std::sin(theta) * std::sin(phi), z = r * std::cos(theta);
+				require("history-plain-spherical-closed-form", same_bits(v[0], x) && same_bits(v[1], y) && same_bits(v[2], z), [&] { return sj().vec("v", from_lib(v)); });
+			}
+		}
+	}
+	if(index % 4999 == 0)
+		sample();
+}
+
 static void setup()
 {
 	add_generator("rotation_3d", ctx().count(600000, 12000000), case_rotation3);
@@ -294,5 +373,6 @@ static void setup()
 	add_generator("spherical_with_axis", ctx().count(600000, 12000000), case_spherical_axis);
 	add_generator("spherical_plain", ctx().count(100000, 2000000), case_spherical_plain);
 	add_generator("angle", ctx().count(100000, 2000000), case_angle);
+	add_generator("call_histories", ctx().count(60000, 1200000), case_history);
 }
 VERIF_MAIN("C16", setup)
